@@ -183,9 +183,9 @@ type stepRun struct {
 
 func ctxFor(loop bool) (context.Context, context.CancelFunc) {
 	if loop {
-		return context.WithTimeout(context.Background(), 25*time.Millisecond)
+		return context.WithTimeout(context.Background(), 60*time.Millisecond)
 	}
-	return context.WithTimeout(context.Background(), 3*time.Second)
+	return context.WithTimeout(context.Background(), 20*time.Second)
 }
 
 func runStep(spec *core.Spec, st *core.State, pending interface{}, ctl *core.Control, props core.StepProps, loop bool) *stepRun {
@@ -315,7 +315,11 @@ func stepComponent(g *G, n int, opts map[string]string) *Out {
 			ctl = &core.Control{Limit: 10}
 		}
 		props := g.genProps()
-		loop := as.hasLoop()
+		// a deadline only where it concerns exactly one execution: the current node's endless action
+		loop := false
+		if cur := as.Nodes[st.Node]; cur != nil && cur.Action.hasLoop() {
+			loop = true
+		}
 		r1 := runStep(spec, st.core(), deepCopy(pending, nil), ctl, props, loop)
 		r2 := runStep(spec, st.core(), deepCopy(pending, g), ctl, props, loop)
 		gor, ok := r1.coq()
@@ -586,6 +590,7 @@ func walkComponent(g *G, n int, opts map[string]string) *Out {
 			}
 		} else {
 			as = g.aspec(opts)
+			as.noLoops()
 			st = g.astate(as)
 			node := st.Node
 			for k := g.intn(5); k > 0; k-- {
